@@ -169,6 +169,10 @@ mut("C13-revert-tuple-definition-echo-fix", "fintphase.c",
     "                                if (abTag(abId) == AB_Declare)\n", "                                if (false)\n")
 
 
+mut("C17-revert-mandatory-sections-in-header", "lib.c",
+    "			if( n == LIB_Pos || n == LIB_PosTbl ) continue;", "			continue;")
+
+
 def main():
     out = os.path.join(os.path.dirname(os.path.abspath(__file__)), "mutants")
     os.makedirs(out, exist_ok=True)
